@@ -98,4 +98,10 @@ META = {
         "note": "The handler is driven in-process through httptest (no TCP). Native fuzzing is in the thorough tier only (cannot be seeded); its findings are kept as raw bodies under replays/C19 and re-run by the quick tier.",
         "technique": "property-based testing (rapid) + native coverage-guided fuzzing (go test -fuzz), invariant + metamorphic (state unchanged) oracle",
     },
+    "C18": {
+        "text": "Canary-based information-flow testing: every secret of a generated create request is a unique marker, the service runs at debug level with its complete log output captured at file-descriptor level, and every response and log increment of generated API / failure / restart histories is searched for the markers. Found the four leaking log sites (failed create prints the request, failed connection check prints the connect parameters, failed start during reload prints the task record, request log does not mask Kafka SASL credentials), fixed in one commit.",
+        "design_ref": "DESIGN.md section 4 C18",
+        "note": "In-process (not a child process): the capture re-points fd 1/2, so output of linked C libraries (librdkafka) is included. Kafka targets are limited to one per case because their producers are never closed by the code under test.",
+        "technique": "property-based testing (rapid), stateful generation with fault injection, invariant oracle (canary never observable)",
+    },
 }
